@@ -12,6 +12,7 @@ import UVerifProofs.Lemmas.Rne
 import UVerifProofs.Lemmas.LnsRound
 import UVerifProofs.Lemmas.Fixpnt
 import UVerifProofs.Lemmas.F64Round
+import UVerifProofs.Lemmas.DDNorm
 import Mathlib.Tactic.SplitIfs
 import Mathlib.Tactic.NormNum
 import Mathlib.Algebra.Order.Floor.Ring
@@ -106,9 +107,10 @@ theorem pow_pred_shr (m r : Nat) (h : r ≤ m) : (2 ^ m - 1) >>> r = 2 ^ (m - r)
   · rw [hsub, hp]; omega
   · rw [Nat.sub_add_cancel hA, hp]; omega
 
-/-- `int(maxpos)` when the integer part fits the source type: 2^(n−r−1) − 1 -/
-theorem thresh_maxpos (n r sz : Nat) (hr : r < n) (h64 : n - r ≤ 64) (hfit : n - r ≤ sz) :
-    toSigned sz (ConvFixpnt.toSignedPat n r sz (ConvFixpnt.maxposP n)) = ((2 ^ (n - r - 1) : Nat) : Int) - 1 := by
+/-- the pattern `static_cast<Arith>(maxpos)` when the integer part fits the source type: 2^(n−r−1) − 1 (maxpos is not negative:
+    no sign extension, no truncation increment) -/
+theorem pat_maxpos (n r sz : Nat) (hr : r < n) (h64 : n - r ≤ 64) (hfit : n - r ≤ sz) :
+    ConvFixpnt.toSignedPat n r sz (ConvFixpnt.maxposP n) = 2 ^ (n - r - 1) - 1 := by
   unfold ConvFixpnt.toSignedPat ConvFixpnt.maxposP ConvFixpnt.signP
   have hA := Nat.two_pow_pos (n - r - 1)
   have hs : (2 ^ (n - 1) - 1).testBit (n - 1) = false := Nat.testBit_lt_two_pow (by have := Nat.two_pow_pos (n - 1); omega)
@@ -116,15 +118,21 @@ theorem thresh_maxpos (n r sz : Nat) (hr : r < n) (h64 : n - r ≤ 64) (hfit : n
   have hlt1 : 2 ^ (n - r - 1) - 1 < 2 ^ (n - r) := by
     have : 2 ^ (n - r - 1) ≤ 2 ^ (n - r) := Nat.pow_le_pow_right (by omega) (by omega)
     omega
+  have hlt3 : 2 ^ (n - r - 1) - 1 < 2 ^ sz := by
+    have : 2 ^ (n - r - 1) ≤ 2 ^ sz := Nat.pow_le_pow_right (by omega) (by omega)
+    omega
+  rw [if_neg (show ¬ n ≤ r by omega), hs]
+  simp only [Bool.false_and, Bool.false_eq_true, if_false]
+  rw [if_neg (show ¬ n - r > 64 by omega), pow_pred_shr (n - 1) r (by omega), hk, Nat.mod_eq_of_lt hlt1, Nat.mod_eq_of_lt hlt3]
+
+/-- `int(maxpos)` when the integer part fits the source type: 2^(n−r−1) − 1 -/
+theorem thresh_maxpos (n r sz : Nat) (hr : r < n) (h64 : n - r ≤ 64) (hfit : n - r ≤ sz) :
+    toSigned sz (ConvFixpnt.toSignedPat n r sz (ConvFixpnt.maxposP n)) = ((2 ^ (n - r - 1) : Nat) : Int) - 1 := by
+  have hA := Nat.two_pow_pos (n - r - 1)
   have hlt2 : 2 ^ (n - r - 1) - 1 < 2 ^ (sz - 1) := by
     have : 2 ^ (n - r - 1) ≤ 2 ^ (sz - 1) := Nat.pow_le_pow_right (by omega) (by omega)
     omega
-  have hlt3 : 2 ^ (n - r - 1) - 1 < 2 ^ sz :=
-    Nat.lt_of_lt_of_le hlt2 (Nat.pow_le_pow_right (by omega) (by omega))
-  rw [if_neg (show ¬ n ≤ r by omega), hs]
-  simp only [Bool.false_and, Bool.false_eq_true, if_false]
-  rw [if_neg (show ¬ n - r > 64 by omega), pow_pred_shr (n - 1) r (by omega), hk, Nat.mod_eq_of_lt hlt1, Nat.mod_eq_of_lt hlt3,
-    Integer.toSigned_small (by omega) hlt2]
+  rw [pat_maxpos n r sz hr h64 hfit, Integer.toSigned_small (by omega) hlt2]
   omega
 
 /-- `int(maxneg)` when the integer part fits the source type: −2^(n−r−1) -/
@@ -140,8 +148,9 @@ theorem thresh_maxneg (n r sz : Nat) (hr : r < n) (h64 : n - r ≤ 64) (hfit : n
   have hz : 2 ^ sz = 2 ^ (sz - 1) * 2 := by rw [← Nat.pow_succ]; congr 1; omega
   have hlt1 : 2 ^ (n - r - 1) < 2 ^ (n - r) := by omega
   have hle : 2 ^ (n - r) ≤ 2 ^ sz := Nat.pow_le_pow_right (by omega) hfit
-  rw [if_neg (show ¬ n ≤ r by omega), hs, if_neg (show ¬ n - r > 64 by omega), hsh]
-  dsimp only
+  have hfr : 2 ^ (n - 1) % 2 ^ r = 0 := Nat.mod_eq_zero_of_dvd (Nat.pow_dvd_pow 2 (by omega))
+  rw [if_neg (show ¬ n ≤ r by omega), hs, if_neg (show ¬ n - r > 64 by omega), hsh, hfr]
+  simp only [ne_eq, not_true_eq_false, decide_false, Bool.and_false, Bool.false_eq_true, if_false]
   rw [Nat.mod_eq_of_lt hlt1, Nat.mod_eq_of_lt (show 2 ^ (n - r - 1) < 2 ^ sz by omega)]
   by_cases hlt : n < sz + r
   · have hdec : decide (n < sz + r) = true := by simpa using hlt
@@ -209,14 +218,18 @@ theorem maxnegZ_eq (n r : Nat) (hr : r < n) :
   have : 2 ^ (n - 1) = 2 ^ (n - r - 1) * 2 ^ r := by rw [← Nat.pow_add]; congr 1; omega
   rw [this]; push_cast; ring
 
-/-- Saturate, signed source whose type holds the integer part of maxpos; `v = ⌊maxpos⌋` excluded unless rbits = 0 -/
-theorem fromSigned_saturate (n r sz : Nat) (v : Int) (hn : 0 < n) (hr : r ≤ n) (hsz : 0 < sz)
-    (h1 : -((2 ^ (sz - 1) : Nat) : Int) ≤ v) (h2 : v < ((2 ^ (sz - 1) : Nat) : Int))
-    (h64 : n - r ≤ 64) (hfit : n - r ≤ sz)
-    (hg : r = 0 ∨ v = 0 ∨ v ≠ ((2 ^ (n - r - 1) : Nat) : Int) - 1) :
+theorem maxnegZ_lt_maxposZ' (n : Nat) : FixpntSpec.maxnegZ n < FixpntSpec.maxposZ n := by
+  unfold FixpntSpec.maxnegZ FixpntSpec.maxposZ
+  have : (0 : Int) < ((2 ^ (n - 1) : Nat) : Int) := by exact_mod_cast Nat.two_pow_pos (n - 1)
+  omega
+
+/-- Saturate, signed source of a native type (at most 64 bits): the clamp of `v · 2^rbits`, for EVERY value of the type.
+    When the integer part of the target is wider than the source type the range test is not compiled and every value fits. -/
+theorem fromSigned_saturate (n r sz : Nat) (v : Int) (hn : 0 < n) (hr : r ≤ n) (hsz : 0 < sz) (hsz64 : sz ≤ 64)
+    (h1 : -((2 ^ (sz - 1) : Nat) : Int) ≤ v) (h2 : v < ((2 ^ (sz - 1) : Nat) : Int)) :
     ConvFixpnt.fromSigned n r true sz v = ConvFixpntSpec.fromInt n r true v := by
   unfold ConvFixpnt.fromSigned ConvFixpntSpec.fromInt FixpntSpec.finish
-  simp only [Bool.true_and, decide_eq_true_eq, if_true]
+  simp only [Bool.true_and, Bool.and_eq_true, decide_eq_true_eq, if_true]
   have hP1 : (0 : Int) < ((2 ^ (n - 1) : Nat) : Int) := by exact_mod_cast Nat.two_pow_pos (n - 1)
   by_cases hv0 : v = 0
   · subst hv0
@@ -224,65 +237,83 @@ theorem fromSigned_saturate (n r sz : Nat) (v : Int) (hn : 0 < n) (hr : r ≤ n)
     simp [ofSigned]
   rw [if_neg hv0]
   have hR : (0 : Int) < ((2 ^ r : Nat) : Int) := by exact_mod_cast Nat.two_pow_pos r
-  rcases Nat.lt_or_ge r n with hlt | hge
-  · -- there is an integer part
-    rw [thresh_maxpos n r sz hlt h64 hfit, thresh_maxneg n r sz hlt h64 hfit]
-    have hK : (0 : Int) < ((2 ^ (n - r - 1) : Nat) : Int) := by exact_mod_cast Nat.two_pow_pos (n - r - 1)
+  by_cases hfit : n - r ≤ sz
+  · have h64 : n - r ≤ 64 := by omega
+    rcases Nat.lt_or_ge r n with hlt | hge
+    · -- there is an integer part
+      rw [thresh_maxpos n r sz hlt h64 hfit, thresh_maxneg n r sz hlt h64 hfit]
+      have hK : (0 : Int) < ((2 ^ (n - r - 1) : Nat) : Int) := by exact_mod_cast Nat.two_pow_pos (n - r - 1)
+      have emp := maxposZ_eq n r hlt
+      have emn := maxnegZ_eq n r hlt
+      by_cases hA : v > ((2 ^ (n - r - 1) : Nat) : Int) - 1
+      · rw [if_pos ⟨hfit, hA⟩]
+        have hle : FixpntSpec.maxposZ n ≤ v * ((2 ^ r : Nat) : Int) := by
+          rw [emp]
+          have := Int.mul_le_mul_of_nonneg_right (show ((2 ^ (n - r - 1) : Nat) : Int) ≤ v by omega) (Int.le_of_lt hR)
+          omega
+        rw [Fixpnt.clamp_le_maxpos hle, ofSigned_maxposZ n hn]
+      · rw [if_neg (fun h => hA h.2)]
+        have hlt' : v * ((2 ^ r : Nat) : Int) ≤ (((2 ^ (n - r - 1) : Nat) : Int) - 1) * ((2 ^ r : Nat) : Int) :=
+          Int.mul_le_mul_of_nonneg_right (by omega) (Int.le_of_lt hR)
+        have hin : v * ((2 ^ r : Nat) : Int) ≤ FixpntSpec.maxposZ n := by
+          rw [emp]; rw [Int.sub_mul, Int.one_mul] at hlt'; omega
+        by_cases hC : v ≤ -((2 ^ (n - r - 1) : Nat) : Int)
+        · rw [if_pos ⟨hfit, hC⟩]
+          have hle : v * ((2 ^ r : Nat) : Int) ≤ FixpntSpec.maxnegZ n := by
+            rw [emn]
+            have := Int.mul_le_mul_of_nonneg_right hC (Int.le_of_lt hR)
+            rw [Int.neg_mul] at this
+            exact this
+          have hnp : ¬ FixpntSpec.maxposZ n ≤ v * ((2 ^ r : Nat) : Int) := by
+            have := maxnegZ_lt_maxposZ' n; omega
+          rw [Fixpnt.clamp_le_maxneg hnp hle, ofSigned_maxnegZ n hn]
+        · rw [if_neg (fun h => hC h.2)]
+          have hge' : (-((2 ^ (n - r - 1) : Nat) : Int) + 1) * ((2 ^ r : Nat) : Int) ≤ v * ((2 ^ r : Nat) : Int) :=
+            Int.mul_le_mul_of_nonneg_right (by omega) (Int.le_of_lt hR)
+          have hge2 : FixpntSpec.maxnegZ n ≤ v * ((2 ^ r : Nat) : Int) := by
+            rw [emn]; rw [Int.add_mul, Int.neg_mul, Int.one_mul] at hge'; omega
+          rw [Fixpnt.clamp_inside' hge2 hin]
+          exact fromSigned_copy n r sz v hr hsz h1 h2
+    · -- nbits = rbits: every non-zero integer is out of range
+      have hrn : r = n := by omega
+      subst hrn
+      rw [thresh_zero, thresh_zero]
+      have hz : 2 ^ r = 2 ^ (r - 1) * 2 := by rw [← Nat.pow_succ]; congr 1; omega
+      have hzi : ((2 ^ r : Nat) : Int) = ((2 ^ (r - 1) : Nat) : Int) * 2 := by rw [hz]; push_cast; ring
+      by_cases hA : v > 0
+      · rw [if_pos ⟨hfit, hA⟩]
+        have hle : FixpntSpec.maxposZ r ≤ v * ((2 ^ r : Nat) : Int) := by
+          unfold FixpntSpec.maxposZ
+          have := Int.mul_le_mul_of_nonneg_right (show (1 : Int) ≤ v by omega) (Int.le_of_lt hR)
+          omega
+        rw [Fixpnt.clamp_le_maxpos hle, ofSigned_maxposZ r hn]
+      · rw [if_neg (fun h => hA h.2), if_pos ⟨hfit, by omega⟩]
+        have hm := Int.mul_le_mul_of_nonneg_right (show v ≤ -1 by omega) (Int.le_of_lt hR)
+        have hnp : ¬ FixpntSpec.maxposZ r ≤ v * ((2 ^ r : Nat) : Int) := by
+          unfold FixpntSpec.maxposZ; omega
+        have hle : v * ((2 ^ r : Nat) : Int) ≤ FixpntSpec.maxnegZ r := by
+          unfold FixpntSpec.maxnegZ; omega
+        rw [Fixpnt.clamp_le_maxneg hnp hle, ofSigned_maxnegZ r hn]
+  · -- the integer part of the target is wider than the source type: no range test, and every value of the type is in range
+    rw [if_neg (fun h => hfit h.1), if_neg (fun h => hfit h.1)]
+    have hlt : r < n := by omega
+    have hpw : ((2 ^ (sz - 1) : Nat) : Int) * 2 ≤ ((2 ^ (n - r - 1) : Nat) : Int) := by
+      have : 2 ^ (sz - 1) * 2 ≤ 2 ^ (n - r - 1) := by
+        rw [← Nat.pow_succ]; exact Nat.pow_le_pow_right (by omega) (by omega)
+      exact_mod_cast this
+    have hS : (0 : Int) < ((2 ^ (sz - 1) : Nat) : Int) := by exact_mod_cast Nat.two_pow_pos (sz - 1)
     have emp := maxposZ_eq n r hlt
     have emn := maxnegZ_eq n r hlt
-    by_cases hA : v ≥ ((2 ^ (n - r - 1) : Nat) : Int) - 1
-    · rw [if_pos hA]
-      have hle : FixpntSpec.maxposZ n ≤ v * ((2 ^ r : Nat) : Int) := by
-        rw [emp]
-        by_cases hB : v ≥ ((2 ^ (n - r - 1) : Nat) : Int)
-        · have := Int.mul_le_mul_of_nonneg_right hB (Int.le_of_lt hR)
-          omega
-        · have hveq : v = ((2 ^ (n - r - 1) : Nat) : Int) - 1 := by omega
-          rcases hg with h0 | h0 | h0
-          · subst h0; simp only [Nat.pow_zero, Nat.cast_one, Int.mul_one]; omega
-          · exact absurd h0 hv0
-          · exact absurd hveq h0
-      rw [Fixpnt.clamp_le_maxpos hle, ofSigned_maxposZ n hn]
-    · rw [if_neg hA]
-      have hlt' : v * ((2 ^ r : Nat) : Int) ≤ (((2 ^ (n - r - 1) : Nat) : Int) - 2) * ((2 ^ r : Nat) : Int) :=
-        Int.mul_le_mul_of_nonneg_right (by omega) (Int.le_of_lt hR)
-      have hnp : ¬ FixpntSpec.maxposZ n ≤ v * ((2 ^ r : Nat) : Int) := by
-        rw [emp]; rw [Int.sub_mul] at hlt'; omega
-      by_cases hC : v ≤ -((2 ^ (n - r - 1) : Nat) : Int)
-      · rw [if_pos hC]
-        have hle : v * ((2 ^ r : Nat) : Int) ≤ FixpntSpec.maxnegZ n := by
-          rw [emn]
-          have := Int.mul_le_mul_of_nonneg_right hC (Int.le_of_lt hR)
-          rw [Int.neg_mul] at this
-          exact this
-        rw [Fixpnt.clamp_le_maxneg hnp hle, ofSigned_maxnegZ n hn]
-      · rw [if_neg hC]
-        have hge' : (-((2 ^ (n - r - 1) : Nat) : Int) + 1) * ((2 ^ r : Nat) : Int) ≤ v * ((2 ^ r : Nat) : Int) :=
-          Int.mul_le_mul_of_nonneg_right (by omega) (Int.le_of_lt hR)
-        have hnn : ¬ v * ((2 ^ r : Nat) : Int) ≤ FixpntSpec.maxnegZ n := by
-          rw [emn]; rw [Int.add_mul, Int.neg_mul, Int.one_mul] at hge'; omega
-        rw [Fixpnt.clamp_inside hnp hnn]
-        exact fromSigned_copy n r sz v hr hsz h1 h2
-  · -- nbits = rbits: every non-zero integer is out of range
-    have hrn : r = n := by omega
-    subst hrn
-    rw [thresh_zero, thresh_zero]
-    have hz : 2 ^ r = 2 ^ (r - 1) * 2 := by rw [← Nat.pow_succ]; congr 1; omega
-    have hzi : ((2 ^ r : Nat) : Int) = ((2 ^ (r - 1) : Nat) : Int) * 2 := by rw [hz]; push_cast; ring
-    by_cases hA : v ≥ 0
-    · rw [if_pos hA]
-      have hle : FixpntSpec.maxposZ r ≤ v * ((2 ^ r : Nat) : Int) := by
-        unfold FixpntSpec.maxposZ
-        have := Int.mul_le_mul_of_nonneg_right (show (1 : Int) ≤ v by omega) (Int.le_of_lt hR)
-        omega
-      rw [Fixpnt.clamp_le_maxpos hle, ofSigned_maxposZ r hn]
-    · rw [if_neg hA, if_pos (by omega)]
-      have hm := Int.mul_le_mul_of_nonneg_right (show v ≤ -1 by omega) (Int.le_of_lt hR)
-      have hnp : ¬ FixpntSpec.maxposZ r ≤ v * ((2 ^ r : Nat) : Int) := by
-        unfold FixpntSpec.maxposZ; omega
-      have hle : v * ((2 ^ r : Nat) : Int) ≤ FixpntSpec.maxnegZ r := by
-        unfold FixpntSpec.maxnegZ; omega
-      rw [Fixpnt.clamp_le_maxneg hnp hle, ofSigned_maxnegZ r hn]
+    have hup : v * ((2 ^ r : Nat) : Int) ≤ (((2 ^ (n - r - 1) : Nat) : Int) - 1) * ((2 ^ r : Nat) : Int) :=
+      Int.mul_le_mul_of_nonneg_right (by omega) (Int.le_of_lt hR)
+    have hlo : (-((2 ^ (n - r - 1) : Nat) : Int)) * ((2 ^ r : Nat) : Int) ≤ v * ((2 ^ r : Nat) : Int) :=
+      Int.mul_le_mul_of_nonneg_right (by omega) (Int.le_of_lt hR)
+    have hin : v * ((2 ^ r : Nat) : Int) ≤ FixpntSpec.maxposZ n := by
+      rw [emp]; rw [Int.sub_mul, Int.one_mul] at hup; omega
+    have hge2 : FixpntSpec.maxnegZ n ≤ v * ((2 ^ r : Nat) : Int) := by
+      rw [emn]; rw [Int.neg_mul] at hlo; exact hlo
+    rw [Fixpnt.clamp_inside' hge2 hin]
+    exact fromSigned_copy n r sz v hr hsz h1 h2
 
 /-- unsigned source, Modulo, integer part at most 64 bits -/
 theorem fromUnsigned_modulo (n r sz v : Nat) (hr : r ≤ n) (h64 : n - r ≤ 64) :
@@ -299,13 +330,18 @@ theorem fromUnsigned_modulo (n r sz v : Nat) (hr : r ≤ n) (h64 : n - r ≤ 64)
 
 /-- the rounding / shifting tail of `convert<float|double>`; `d` = radixPoint − rbits, the (signed) number of source
     fraction bits below the target's least significant bit -/
-def ieeeTail (n fb : Nat) (s : Bool) (fraction : Nat) (d : Int) : Nat :=
+def ieeeTail (n fb : Nat) (sat s : Bool) (fraction : Nat) (d : Int) : Nat :=
   let shiftRight : Int := min d 64
   if shiftRight > (fb : Int) + 1 then 0
-  else if shiftRight > 0 then ConvFixpnt.setbits64 n (ConvFixpnt.neg64 s (Lns.Model.roundGRS fraction shiftRight.toNat))
+  else if shiftRight > 0 then
+    let x := ConvFixpnt.setbits64 n (Lns.Model.roundGRS fraction shiftRight.toNat)
+    let y := if s then twosComp n x else x
+    if sat && !s && ConvFixpnt.signP n y then ConvFixpnt.maxposP n else y
   else
     let sl := (-shiftRight).toNat
-    if sl < 64 - fb then ConvFixpnt.setbits64 n (ConvFixpnt.neg64 s (fraction <<< sl))
+    if sl < 64 - fb then
+      let x := ConvFixpnt.setbits64 n (fraction <<< sl)
+      if s then twosComp n x else x
     else
       let x := (fraction <<< sl) % 2 ^ n
       if s then twosComp n x else x
@@ -313,7 +349,7 @@ def ieeeTail (n fb : Nat) (s : Bool) (fraction : Nat) (d : Int) : Nat :=
 /-- a normal source in Modulo mode reaches the tail -/
 theorem fromIeee_modulo_eq_tail (n r ew fb bits : Nat) (hexp : 0 < (bits >>> fb) % 2 ^ ew) :
     ConvFixpnt.fromIeee n r false ew fb bits =
-      ieeeTail n fb (bits.testBit (ew + fb)) (bits % 2 ^ fb + 2 ^ fb)
+      ieeeTail n fb false (bits.testBit (ew + fb)) (bits % 2 ^ fb + 2 ^ fb)
         ((fb : Int) - ((((bits >>> fb) % 2 ^ ew : Nat) : Int) - (((2 ^ (ew - 1) : Nat) : Int) - 1)) - (r : Int)) := by
   unfold ConvFixpnt.fromIeee ieeeTail
   simp only [Bool.false_and, Bool.false_eq_true, if_false]
@@ -349,18 +385,12 @@ theorem ofSigned_mod (n m : Nat) (z : Int) (h : n ≤ m) : ofSigned m z % 2 ^ n 
   apply eq_ofSigned_of_modEq (Nat.mod_lt _ (Nat.two_pow_pos n))
   exact (modEq_natMod (ofSigned m z) n).trans (modEq_of_le h (modEq_ofSigned m z))
 
-/-- `setbits( s ? ~q + 1 : q )` on a uint64_t, for nbits ≤ 64: the pattern of ±q -/
-theorem setbits64_neg64 (n q : Nat) (s : Bool) (hn : n ≤ 64) :
-    ConvFixpnt.setbits64 n (ConvFixpnt.neg64 s q) = ofSigned n (sgnZ s (q : Int)) := by
-  unfold ConvFixpnt.setbits64 ConvFixpnt.neg64
-  have hdvd : 2 ^ n ∣ 2 ^ 64 := Nat.pow_dvd_pow 2 hn
-  cases s
-  · simp only [Bool.false_eq_true, if_false, sgnZ]
-    rw [Nat.mod_mod, Nat.mod_mod_of_dvd _ hdvd, ofSigned_natCast]
-  · simp only [if_true, sgnZ]
-    rw [Nat.mod_mod]
-    have e : (2 ^ 64 - q % 2 ^ 64) % 2 ^ 64 = twosComp 64 q := rfl
-    rw [e, twosComp_eq_ofSigned, ofSigned_mod n 64 _ hn]
+/-- `setbits(uint64_t)` of a word that fits 64 bits: the low nbits bits, any nbits -/
+theorem setbits64_small (n q : Nat) (hq : q < 2 ^ 64) : ConvFixpnt.setbits64 n q = q % 2 ^ n := by
+  unfold ConvFixpnt.setbits64; rw [Nat.mod_eq_of_lt hq]
+
+theorem rneShr_le_succ (x k : Nat) : rneShr x k ≤ x >>> k + 1 := by
+  unfold rneShr; simp only; split_ifs <;> omega
 
 /-- bit projection + `twosComplement()` in nbits: the pattern of ±X, any nbits -/
 theorem project_neg (n X : Nat) (s : Bool) :
@@ -378,12 +408,13 @@ theorem project_neg (n X : Nat) (s : Bool) :
 theorem pow2_neg_nat (k : Nat) (x : Rat) : x * pow2 (-(k : Int)) = x / ((2 ^ k : Nat) : Rat) := by
   rw [pow2_eq_zpow, zpow_neg, zpow_natCast, div_eq_mul_inv]; push_cast; rfl
 
-/-- the tail computes the source scaled by 2^rbits, rounded to nearest (ties to even), modulo 2^nbits — nbits ≤ 64 -/
-theorem ieeeTail_spec (n fb : Nat) (s : Bool) (fr : Nat) (d : Int) (hfb : fb + 1 < 64) (hfr : fr < 2 ^ (fb + 1))
-    (hn : n ≤ 64) :
-    ieeeTail n fb s fr d = ofSigned n (rne (sgnQ s ((fr : Rat) * pow2 (-d)))) := by
+/-- the Modulo tail computes the source scaled by 2^rbits, rounded to nearest (ties to even), modulo 2^nbits — EVERY nbits
+    (`setbits(uint64_t)` of the magnitude, then `twosComplement()` in all nbits) -/
+theorem ieeeTail_spec (n fb : Nat) (s : Bool) (fr : Nat) (d : Int) (hfb : fb + 1 < 64) (hfr : fr < 2 ^ (fb + 1)) :
+    ieeeTail n fb false s fr d = ofSigned n (rne (sgnQ s ((fr : Rat) * pow2 (-d)))) := by
   unfold ieeeTail
-  simp only []
+  simp only [Bool.false_and, Bool.false_eq_true, if_false]
+  have hfr63 : fr < 2 ^ 63 := Nat.lt_of_lt_of_le hfr (Nat.pow_le_pow_right (by omega) (by omega))
   by_cases hA : min d 64 > (fb : Int) + 1
   · rw [if_pos hA]
     obtain ⟨k, rfl⟩ : ∃ k : Nat, d = (k : Int) := ⟨d.toNat, by omega⟩
@@ -400,7 +431,12 @@ theorem ieeeTail_spec (n fb : Nat) (s : Bool) (fr : Nat) (d : Int) (hfb : fb + 1
       obtain ⟨k, rfl⟩ : ∃ k : Nat, d = (k : Int) := ⟨d.toNat, by omega⟩
       have hk : 1 ≤ k := by omega
       have hmin : (min (k : Int) 64).toNat = k := by omega
-      rw [hmin, LnsLemmas.roundGRS_eq_rneShr fr k hk, setbits64_neg64 n _ s hn, pow2_neg_nat, rne_sgn_div]
+      have hq64 : rneShr fr k < 2 ^ 64 := by
+        have h1 := rneShr_le_succ fr k
+        have h2 : fr >>> k ≤ fr := by rw [Nat.shiftRight_eq_div_pow]; exact Nat.div_le_self _ _
+        have h3 : (2 : Nat) ^ 63 < 2 ^ 64 := Nat.pow_lt_pow_right (by omega) (by omega)
+        omega
+      rw [hmin, LnsLemmas.roundGRS_eq_rneShr fr k hk, setbits64_small n _ hq64, project_neg n _ s, pow2_neg_nat, rne_sgn_div]
     · rw [if_neg hB]
       obtain ⟨sl, rfl⟩ : ∃ sl : Nat, d = -(sl : Int) := ⟨(-d).toNat, by omega⟩
       have hmin : (-(min (-(sl : Int)) 64)).toNat = sl := by omega
@@ -410,9 +446,58 @@ theorem ieeeTail_spec (n fb : Nat) (s : Bool) (fr : Nat) (d : Int) (hfb : fb + 1
         rw [e, rne_sgn_div, rneShr_zero]
       rw [hmin, hval]
       by_cases hC : sl < 64 - fb
-      · rw [if_pos hC, setbits64_neg64 n _ s hn]
+      · rw [if_pos hC]
+        have hlt : fr <<< sl < 2 ^ 64 := by
+          rw [Nat.shiftLeft_eq]
+          have h1 : fr * 2 ^ sl < 2 ^ (fb + 1) * 2 ^ sl := Nat.mul_lt_mul_of_pos_right hfr (Nat.two_pow_pos sl)
+          have h2 : 2 ^ (fb + 1) * 2 ^ sl ≤ 2 ^ 64 := by rw [← Nat.pow_add]; exact Nat.pow_le_pow_right (by omega) (by omega)
+          omega
+        rw [setbits64_small n _ hlt]
+        exact project_neg n (fr <<< sl) s
       · rw [if_neg hC]
         exact project_neg n (fr <<< sl) s
+
+/-- the Saturate tail is the Modulo tail, except that in the rounding branch a positive source whose result has the sign bit
+    set (`if (!s && f.sign()) f.maxpos();`) gives maxpos -/
+theorem ieeeTail_sat_eq (n fb : Nat) (s : Bool) (fr : Nat) (d : Int) :
+    ieeeTail n fb true s fr d =
+      if (¬ min d 64 > (fb : Int) + 1 ∧ min d 64 > 0) ∧ s = false ∧ ConvFixpnt.signP n (ieeeTail n fb false s fr d) = true
+      then ConvFixpnt.maxposP n else ieeeTail n fb false s fr d := by
+  unfold ieeeTail
+  simp only [Bool.false_and, Bool.false_eq_true, if_false, Bool.true_and]
+  by_cases hA : min d 64 > (fb : Int) + 1
+  · simp [hA]
+  · by_cases hB : min d 64 > 0
+    · cases s <;> simp [hA, hB]
+    · simp [hA, hB]
+
+/-- outside the rounding branch the scaled source is 0 after rounding or an integer: a strict integer bound survives rounding -/
+theorem rne_lt_of_not_round (fb fr : Nat) (d : Int) (hfr : fr < 2 ^ (fb + 1)) (B : Int) (hB : 0 < B)
+    (hnb : ¬ (¬ min d 64 > (fb : Int) + 1 ∧ min d 64 > 0))
+    (hQ : (fr : Rat) * pow2 (-d) < (B : Rat)) : rne ((fr : Rat) * pow2 (-d)) < B := by
+  by_cases hA : min d 64 > (fb : Int) + 1
+  · obtain ⟨k, rfl⟩ : ∃ k : Nat, d = (k : Int) := ⟨d.toNat, by omega⟩
+    have hk : fb + 2 ≤ k := by omega
+    have hsm : 2 * fr < 2 ^ k := by
+      have : 2 ^ (fb + 2) ≤ 2 ^ k := Nat.pow_le_pow_right (by omega) hk
+      have e : 2 ^ (fb + 2) = 2 * 2 ^ (fb + 1) := by rw [Nat.pow_succ]; ring
+      omega
+    rw [pow2_neg_nat, LnsLemmas.rne_div_two_pow, rneShr_small hsm]
+    exact_mod_cast hB
+  · have hd : min d 64 ≤ 0 := by
+      by_contra hc
+      exact hnb ⟨hA, by omega⟩
+    obtain ⟨sl, rfl⟩ : ∃ sl : Nat, d = -(sl : Int) := ⟨(-d).toNat, by omega⟩
+    have e : (fr : Rat) * pow2 (-(-(sl : Int))) = ((fr <<< sl : Nat) : Rat) / ((2 ^ 0 : Nat) : Rat) := by
+      rw [Int.neg_neg, pow2_natCast, Nat.shiftLeft_eq]; push_cast; ring
+    rw [e, LnsLemmas.rne_div_two_pow, rneShr_zero]
+    rw [e] at hQ
+    generalize fr <<< sl = m at hQ ⊢
+    have hm : ((m : Nat) : Rat) < (B : Rat) := by
+      have : ((m : Nat) : Rat) / ((2 ^ 0 : Nat) : Rat) = (m : Rat) := by push_cast; ring
+      rw [this] at hQ; exact hQ
+    have : ((m : Int) : Rat) < (B : Rat) := by push_cast; exact hm
+    exact_mod_cast this
 
 theorem sgnQ_mul (s : Bool) (a c : Rat) : sgnQ s a * c = sgnQ s (a * c) := by
   cases s <;> simp [sgnQ]
@@ -436,23 +521,30 @@ theorem valOf_normal (ew fb bits : Nat) (hexp : 0 < (bits >>> fb) % 2 ^ ew) :
   push_cast
   rfl
 
+/-- the scaled exact value of a normal source in terms of the decoded fields the tail works on -/
+theorem valOf_scaled (r ew fb bits : Nat) (hexp : 0 < (bits >>> fb) % 2 ^ ew) :
+    SpecF64.valOf (fb + 1) ew bits * ((2 ^ r : Nat) : Rat) =
+      sgnQ (bits.testBit (ew + fb)) (((bits % 2 ^ fb + 2 ^ fb : Nat) : Rat) *
+        pow2 (-((fb : Int) - ((((bits >>> fb) % 2 ^ ew : Nat) : Int) - (((2 ^ (ew - 1) : Nat) : Int) - 1)) - (r : Int)))) := by
+  rw [valOf_normal ew fb bits hexp]
+  rw [sgnQ_mul, mul_assoc, ← pow2_natCast, ← pow2_add]
+  congr 3
+  ring
+
 /-- the tail in terms of the exact source value -/
-theorem ieeeTail_valOf (n r ew fb bits : Nat) (hn : n ≤ 64) (hfb : fb + 1 < 64) (hexp : 0 < (bits >>> fb) % 2 ^ ew) :
-    ieeeTail n fb (bits.testBit (ew + fb)) (bits % 2 ^ fb + 2 ^ fb)
+theorem ieeeTail_valOf (n r ew fb bits : Nat) (hfb : fb + 1 < 64) (hexp : 0 < (bits >>> fb) % 2 ^ ew) :
+    ieeeTail n fb false (bits.testBit (ew + fb)) (bits % 2 ^ fb + 2 ^ fb)
         ((fb : Int) - ((((bits >>> fb) % 2 ^ ew : Nat) : Int) - (((2 ^ (ew - 1) : Nat) : Int) - 1)) - (r : Int))
       = ofSigned n (rne (SpecF64.valOf (fb + 1) ew bits * ((2 ^ r : Nat) : Rat))) := by
   have hfr : bits % 2 ^ fb + 2 ^ fb < 2 ^ (fb + 1) := by
     have := Nat.mod_lt bits (Nat.two_pow_pos fb)
     rw [Nat.pow_succ]; omega
-  rw [ieeeTail_spec n fb _ _ _ hfb hfr hn, valOf_normal ew fb bits hexp]
-  rw [sgnQ_mul, mul_assoc, ← pow2_natCast, ← pow2_add]
-  congr 5
-  ring
+  rw [ieeeTail_spec n fb _ _ _ hfb hfr, valOf_scaled r ew fb bits hexp]
 
-/-- float / double → fixpnt, Modulo, nbits ≤ 64, normal source: correctly rounded then wrapped -/
-theorem fromIeee_modulo (n r ew fb bits : Nat) (hn : n ≤ 64) (hfb : fb + 1 < 64) (hexp : 0 < (bits >>> fb) % 2 ^ ew) :
+/-- float / double → fixpnt, Modulo, EVERY nbits, normal source: correctly rounded then wrapped -/
+theorem fromIeee_modulo (n r ew fb bits : Nat) (hfb : fb + 1 < 64) (hexp : 0 < (bits >>> fb) % 2 ^ ew) :
     ConvFixpnt.fromIeee n r false ew fb bits = ConvFixpntSpec.fromRat n r false (SpecF64.valOf (fb + 1) ew bits) := by
-  rw [fromIeee_modulo_eq_tail n r ew fb bits hexp, ieeeTail_valOf n r ew fb bits hn hfb hexp]
+  rw [fromIeee_modulo_eq_tail n r ew fb bits hexp, ieeeTail_valOf n r ew fb bits hfb hexp]
   unfold ConvFixpntSpec.fromRat FixpntSpec.finish
   simp only [Bool.false_eq_true, if_false]
 
@@ -550,6 +642,98 @@ theorem toNative_maxneg (fmt : Fmt) (hp : 1 ≤ fmt.p) (n r : Nat) (hn : 0 < n) 
     subst this
     rw [Nat.mod_eq_of_lt hlt]; exact isFloatN_two_pow _ _ hp
 
+open F64 in
+/-- an addition of two non-negative finite numbers: the rounded sum, when it does not overflow -/
+theorem add_fin_round (fmt : Fmt) (a b R : Nat) (hab : a + b ≠ 0) (hR : rnNat fmt.p (a + b) = R) (hs : size R ≤ fmt.top) :
+    F64.add fmt (.fin false a) (.fin false b) = .fin false R := by
+  simp only [F64.add, F.toInt, Bool.false_eq_true, if_false, Bool.and_self]
+  unfold roundInt
+  rw [if_neg (by omega)]
+  have hna : ((a : Int) + (b : Int)).natAbs = a + b := by omega
+  have hneg : decide ((a : Int) + (b : Int) < 0) = false := by
+    rw [decide_eq_false_iff_not]; omega
+  rw [hna, hneg, hR]
+  unfold pack
+  rw [if_pos hs]
+
+open F64 in
+/-- the accumulation loop of `to_native` on an all-ones magnitude wider than the precision: after the bits below m (p < m) the
+    accumulator holds the power of two 2^m (in units of 2^-r): the sum 2^(p+1) − 1 is a tie that rounds to the even 2^(p+1), and
+    from there every addition doubles a power of two exactly -/
+theorem toNative_fold_ones (fmt : Fmt) (hp : 1 ≤ fmt.p) (r mag : Nat) (hr : r ≤ fmt.q) :
+    ∀ m, fmt.p < m → (∀ i, i < m → mag.testBit i = true) → m + 1 + (fmt.q - r) ≤ fmt.top →
+      (List.range m).foldl
+        (fun acc i => if mag.testBit i then F64.add fmt acc (.fin false (2 ^ (i + fmt.q - r))) else acc) (F.fin false 0)
+        = F.fin false (2 ^ m * 2 ^ (fmt.q - r)) := by
+  intro m hm
+  induction m, hm using Nat.le_induction with
+  | base =>
+    intro hbits hsz
+    have hmod : mag % 2 ^ fmt.p = 2 ^ fmt.p - 1 := by
+      apply Nat.eq_of_testBit_eq
+      intro i
+      rw [Nat.testBit_mod_two_pow, Nat.testBit_two_pow_sub_one]
+      by_cases hi : i < fmt.p
+      · simp [hi, hbits i (by omega)]
+      · simp [hi]
+    rw [List.range_succ, List.foldl_append,
+      toNative_fold fmt hp r mag hr fmt.p (fun j hj => isFloatN_of_lt (by
+        have := Nat.mod_lt mag (Nat.two_pow_pos j)
+        have : 2 ^ j ≤ 2 ^ fmt.p := Nat.pow_le_pow_right (by omega) hj
+        omega)) (by omega), hmod]
+    simp only [List.foldl_cons, List.foldl_nil]
+    rw [hbits fmt.p (by omega), if_pos rfl]
+    have hP := Nat.two_pow_pos fmt.p
+    have hE := Nat.two_pow_pos (fmt.q - r)
+    have he : fmt.p + fmt.q - r = fmt.p + (fmt.q - r) := by omega
+    have hj : 2 ^ (fmt.p + 1 + (fmt.q - r)) = 2 ^ (fmt.p + 1) * 2 ^ (fmt.q - r) := by rw [Nat.pow_add]
+    have hsum : (2 ^ fmt.p - 1) * 2 ^ (fmt.q - r) + 2 ^ (fmt.p + fmt.q - r)
+        = 2 ^ (fmt.p + 1 + (fmt.q - r)) - 2 ^ (fmt.q - r) := by
+      rw [he, hj, Nat.pow_succ, Nat.pow_add, Nat.sub_mul, Nat.one_mul]
+      have : 2 ^ (fmt.q - r) ≤ 2 ^ fmt.p * 2 ^ (fmt.q - r) := Nat.le_mul_of_pos_left _ hP
+      have h2 : 2 ^ fmt.p * 2 * 2 ^ (fmt.q - r) = 2 ^ fmt.p * 2 ^ (fmt.q - r) + 2 ^ fmt.p * 2 ^ (fmt.q - r) := by ring
+      omega
+    have hle : 2 ^ (fmt.q - r) ≤ 2 ^ (fmt.p + 1 + (fmt.q - r)) := Nat.pow_le_pow_right (by omega) (by omega)
+    have hlt : 2 ^ (fmt.q - r) < 2 ^ (fmt.p + 1 + (fmt.q - r)) := Nat.pow_lt_pow_right (by omega) (by omega)
+    apply add_fin_round fmt _ _ _ (by rw [hsum]; omega)
+    · rw [hsum, ← hj]
+      apply rnNat_tie_up hp (by omega)
+      · have : fmt.p + 1 + (fmt.q - r) - fmt.p - 1 = fmt.q - r := by omega
+        rw [this]; omega
+      · omega
+    · rw [← hj, size_two_pow]; omega
+  | succ m hm ih =>
+    intro hbits hsz
+    rw [List.range_succ, List.foldl_append, ih (fun i hi => hbits i (by omega)) (by omega)]
+    simp only [List.foldl_cons, List.foldl_nil]
+    rw [hbits m (by omega), if_pos rfl]
+    have he : m + fmt.q - r = m + (fmt.q - r) := by omega
+    have hsum : 2 ^ m * 2 ^ (fmt.q - r) + 2 ^ (m + fmt.q - r) = 2 ^ (m + 1) * 2 ^ (fmt.q - r) := by
+      rw [he, Nat.pow_add, Nat.pow_succ]; ring
+    have hpw : 2 ^ (m + 1) * 2 ^ (fmt.q - r) = 2 ^ (m + 1 + (fmt.q - r)) := (Nat.pow_add 2 (m + 1) (fmt.q - r)).symm
+    rw [add_fin_exact fmt hp _ _ (by rw [hsum, hpw]; exact isFloatN_two_pow _ _ hp)
+      (by rw [hsum, hpw, size_two_pow]; omega), hsum]
+
+open F64 in
+/-- `float(maxpos)` when maxpos has MORE than p significant bits (p + 2 ≤ nbits): the accumulation rounds up to the power of
+    two 2^(nbits−1−rbits) -/
+theorem toNative_maxpos_wide (fmt : Fmt) (hp : 1 ≤ fmt.p) (n r : Nat) (hr : r ≤ fmt.q) (hnp : fmt.p + 2 ≤ n)
+    (hsz : n + (fmt.q - r) ≤ fmt.top) :
+    ConvFixpnt.toNative fmt n r (ConvFixpnt.maxposP n) = F.fin false (2 ^ (n - 1) * 2 ^ (fmt.q - r)) := by
+  unfold ConvFixpnt.toNative ConvFixpnt.maxposP ConvFixpnt.signP
+  have hA := Nat.two_pow_pos (n - 1)
+  have hz : 2 ^ n = 2 ^ (n - 1) * 2 := by rw [← Nat.pow_succ]; congr 1; omega
+  have hs : (2 ^ (n - 1) - 1).testBit (n - 1) = false := Nat.testBit_lt_two_pow (by omega)
+  have hm : (2 ^ (n - 1) - 1) % 2 ^ n = 2 ^ (n - 1) - 1 := Nat.mod_eq_of_lt (by omega)
+  simp only [hs, Bool.false_eq_true, if_false]
+  rw [hm]
+  obtain ⟨k, rfl⟩ : ∃ k, n = k + 1 := ⟨n - 1, by omega⟩
+  simp only [Nat.add_sub_cancel] at hs ⊢
+  rw [List.range_succ, List.foldl_append,
+    toNative_fold_ones fmt hp r (2 ^ k - 1) hr k (by omega) (fun i hi => by
+      rw [Nat.testBit_two_pow_sub_one]; simpa using hi) (by omega)]
+  simp only [List.foldl_cons, List.foldl_nil, hs, Bool.false_eq_true, if_false]
+
 /-! ### monotonicity of `rne` against integers -/
 
 theorem le_rne {z : Int} {q : Rat} (h : (z : Rat) ≤ q) : z ≤ rne q := by
@@ -591,7 +775,7 @@ theorem fromIeee_saturate_eq (n r ew fb bits : Nat) (hexp : 0 < (bits >>> fb) % 
        let fmn := ConvFixpnt.toNative binary32 n r (ConvFixpnt.maxnegP n)
        if vR ≥ ConvFixpnt.valUnits fmp.sign fmp.mag binary32.q then ConvFixpnt.maxposP n
        else if vR ≤ ConvFixpnt.valUnits fmn.sign fmn.mag binary32.q then ConvFixpnt.maxnegP n
-       else ieeeTail n fb s fr
+       else ieeeTail n fb true s fr
         ((fb : Int) - ((((bits >>> fb) % 2 ^ ew : Nat) : Int) - (((2 ^ (ew - 1) : Nat) : Int) - 1)) - (r : Int))) := by
   unfold ConvFixpnt.fromIeee ieeeTail F64.ofBits
   have h2 : ¬ ((bits >>> fb) % 2 ^ ew = 2 ^ ew - 1) := by omega
@@ -636,45 +820,64 @@ theorem maxnegZ_lt_maxposZ (n : Nat) : FixpntSpec.maxnegZ n < FixpntSpec.maxposZ
   omega
 
 open F64 in
-/-- float / double → fixpnt, Saturate, nbits ≤ 25 (so that `float(maxpos)` is exact), normal finite source -/
-theorem fromIeee_saturate (n r ew fb bits : Nat) (hn : 0 < n) (hn25 : n ≤ 25) (hr : r ≤ n) (hew : 2 ≤ ew)
-    (hfb : fb + 1 < 64) (hexp : 0 < (bits >>> fb) % 2 ^ ew) (hfin : (bits >>> fb) % 2 ^ ew < 2 ^ ew - 1) :
+/-- float / double → fixpnt, Saturate, normal finite source, for ANY nbits — given what the two single-precision thresholds are:
+    `float(maxneg)` is exactly −2^(nbits−1−rbits) and `float(maxpos)` = M·2^−149 lies in [maxpos, 2^(nbits−1−rbits)].
+    A source at or above float(maxpos) clamps; one below it rounds to at most 2^(nbits−1), and the repaired code replaces a
+    positive result that carried into the sign bit by maxpos. -/
+theorem fromIeee_saturate_of_thresholds (n r ew fb bits M : Nat) (hn : 0 < n) (hr149 : r ≤ 149) (hew : 2 ≤ ew)
+    (hfb : fb + 1 < 64) (hexp : 0 < (bits >>> fb) % 2 ^ ew) (hfin : (bits >>> fb) % 2 ^ ew < 2 ^ ew - 1)
+    (hmp : ConvFixpnt.toNative binary32 n r (ConvFixpnt.maxposP n) = F.fin false M)
+    (hM1 : (2 ^ (n - 1) - 1) * 2 ^ (149 - r) ≤ M) (hM2 : M ≤ 2 ^ (n - 1) * 2 ^ (149 - r))
+    (hmn : ConvFixpnt.toNative binary32 n r (ConvFixpnt.maxnegP n) = F.fin true (2 ^ (n - 1) * 2 ^ (149 - r))) :
     ConvFixpnt.fromIeee n r true ew fb bits = ConvFixpntSpec.fromRat n r true (SpecF64.valOf (fb + 1) ew bits) := by
   have hq : binary32.q = 149 := by decide
-  have hp : binary32.p = 24 := by decide
-  have htop : binary32.top = 277 := by decide
   rw [fromIeee_saturate_eq n r ew fb bits hexp hfin]
   simp only
-  rw [valUnits_eq_valOf ew fb bits hew hexp,
-    toNative_maxpos binary32 (by rw [hp]; omega) n r hn (by rw [hq]; omega) (by rw [hp]; omega) (by rw [hq, htop]; omega),
-    toNative_maxneg binary32 (by rw [hp]; omega) n r hn (by rw [hq]; omega) (by rw [hq, htop]; omega),
-    ieeeTail_valOf n r ew fb bits (by omega) hfb hexp, hq]
+  rw [valUnits_eq_valOf ew fb bits hew hexp, hmp, hmn, hq]
   unfold ConvFixpntSpec.fromRat FixpntSpec.finish ConvFixpnt.valUnits
   simp only [F.sign, F.mag, Bool.false_eq_true, if_false, if_true]
-  generalize SpecF64.valOf (fb + 1) ew bits = x
+  have hfr : bits % 2 ^ fb + 2 ^ fb < 2 ^ (fb + 1) := by
+    have := Nat.mod_lt bits (Nat.two_pow_pos fb)
+    rw [Nat.pow_succ]; omega
+  have hsc := valOf_scaled r ew fb bits hexp
+  have htl := ieeeTail_valOf n r ew fb bits hfb hexp
+  generalize SpecF64.valOf (fb + 1) ew bits = x at hsc htl ⊢
+  generalize bits.testBit (ew + fb) = s at hsc htl ⊢
+  generalize bits % 2 ^ fb + 2 ^ fb = fr at hsc htl hfr ⊢
+  generalize ((fb : Int) - ((((bits >>> fb) % 2 ^ ew : Nat) : Int) - (((2 ^ (ew - 1) : Nat) : Int) - 1)) - (r : Int)) = d at hsc htl ⊢
   have hR : (0 : Rat) < ((2 ^ r : Nat) : Rat) := by exact_mod_cast Nat.two_pow_pos r
   have hsplit : ((2 ^ 149 : Nat) : Rat) = ((2 ^ (149 - r) : Nat) : Rat) * ((2 ^ r : Nat) : Rat) := by
     have : 2 ^ 149 = 2 ^ (149 - r) * 2 ^ r := by rw [← Nat.pow_add]; congr 1; omega
     rw [this]; push_cast; ring
   have hQ : (0 : Rat) < ((2 ^ (149 - r) : Nat) : Rat) := by exact_mod_cast Nat.two_pow_pos (149 - r)
-  have hTP : (((2 ^ (n - 1) - 1) * 2 ^ (149 - r) : Nat) : Rat) / ((2 ^ 149 : Nat) : Rat)
-      = ((2 ^ (n - 1) - 1 : Nat) : Rat) / ((2 ^ r : Nat) : Rat) := by
-    rw [hsplit, Nat.cast_mul]; field_simp
+  have hP : (0 : Rat) < ((2 ^ 149 : Nat) : Rat) := by exact_mod_cast Nat.two_pow_pos 149
+  have hA1 := Nat.two_pow_pos (n - 1)
+  -- float(maxpos) · 2^r in raw units lies in [maxpos, 2^(n−1)]
+  have hMlo : ((2 ^ (n - 1) - 1 : Nat) : Rat) ≤ (M : Rat) / ((2 ^ 149 : Nat) : Rat) * ((2 ^ r : Nat) : Rat) := by
+    have h : (((2 ^ (n - 1) - 1) * 2 ^ (149 - r) : Nat) : Rat) ≤ (M : Rat) := by exact_mod_cast hM1
+    rw [Nat.cast_mul] at h
+    rw [hsplit, div_mul_eq_mul_div, le_div_iff₀ (mul_pos hQ hR)]
+    nlinarith
+  have hMhi : (M : Rat) / ((2 ^ 149 : Nat) : Rat) * ((2 ^ r : Nat) : Rat) ≤ ((2 ^ (n - 1) : Nat) : Rat) := by
+    have h : (M : Rat) ≤ ((2 ^ (n - 1) * 2 ^ (149 - r) : Nat) : Rat) := by exact_mod_cast hM2
+    rw [Nat.cast_mul] at h
+    rw [hsplit, div_mul_eq_mul_div, div_le_iff₀ (mul_pos hQ hR)]
+    nlinarith
   have hTN : -((2 ^ (n - 1) * 2 ^ (149 - r) : Nat) : Rat) / ((2 ^ 149 : Nat) : Rat)
       = -((2 ^ (n - 1) : Nat) : Rat) / ((2 ^ r : Nat) : Rat) := by
     rw [hsplit, Nat.cast_mul]; field_simp
-  rw [hTP, hTN]
-  by_cases hA : x ≥ ((2 ^ (n - 1) - 1 : Nat) : Rat) / ((2 ^ r : Nat) : Rat)
+  rw [hTN]
+  by_cases hA : x ≥ (M : Rat) / ((2 ^ 149 : Nat) : Rat)
   · rw [if_pos hA]
     have hy : ((FixpntSpec.maxposZ n : Int) : Rat) ≤ x * ((2 ^ r : Nat) : Rat) := by
-      rw [maxposZ_cast]; exact (div_le_iff₀ hR).mp hA
+      rw [maxposZ_cast]
+      have := mul_le_mul_of_nonneg_right hA (le_of_lt hR)
+      linarith
     rw [Fixpnt.clamp_le_maxpos (le_rne hy), ofSigned_maxposZ n hn]
   · rw [if_neg hA]
-    have hy : x * ((2 ^ r : Nat) : Rat) ≤ ((FixpntSpec.maxposZ n : Int) : Rat) := by
-      rw [maxposZ_cast]
-      have := (lt_div_iff₀ hR).mp (lt_of_not_ge hA)
-      exact le_of_lt this
-    have hle := rne_le hy
+    have hxlt : x * ((2 ^ r : Nat) : Rat) < ((2 ^ (n - 1) : Nat) : Rat) := by
+      have := mul_lt_mul_of_pos_right (lt_of_not_ge hA) hR
+      linarith
     by_cases hB : x ≤ -((2 ^ (n - 1) : Nat) : Rat) / ((2 ^ r : Nat) : Rat)
     · rw [if_pos hB]
       have hy2 : x * ((2 ^ r : Nat) : Rat) ≤ ((FixpntSpec.maxnegZ n : Int) : Rat) := by
@@ -687,7 +890,80 @@ theorem fromIeee_saturate (n r ew fb bits : Nat) (hn : 0 < n) (hn25 : n ≤ 25) 
         rw [maxnegZ_cast]
         have := (div_lt_iff₀ hR).mp (lt_of_not_ge hB)
         exact le_of_lt this
-      rw [Fixpnt.clamp_inside' (le_rne hy2) hle]
+      have hZlo := le_rne hy2
+      have hZhi : rne (x * ((2 ^ r : Nat) : Rat)) ≤ ((2 ^ (n - 1) : Nat) : Int) :=
+        rne_le (by rw [Int.cast_natCast]; exact le_of_lt hxlt)
+      rw [ieeeTail_sat_eq, htl]
+      have hpow : (0 : Rat) ≤ (fr : Rat) * pow2 (-d) := mul_nonneg (Nat.cast_nonneg fr) (le_of_lt (pow2_pos _))
+      cases s
+      · -- a positive source
+        simp only [sgnQ, Bool.false_eq_true, if_false] at hsc
+        by_cases hZ : rne (x * ((2 ^ r : Nat) : Rat)) = ((2 ^ (n - 1) : Nat) : Int)
+        · have hbr : ¬ min d 64 > (fb : Int) + 1 ∧ min d 64 > 0 := by
+            by_contra hnb
+            have := rne_lt_of_not_round fb fr d hfr ((2 ^ (n - 1) : Nat) : Int) (by exact_mod_cast hA1) hnb
+              (by rw [← hsc, Int.cast_natCast]; exact hxlt)
+            rw [← hsc] at this; omega
+          have hsg : ConvFixpnt.signP n (ofSigned n (rne (x * ((2 ^ r : Nat) : Rat)))) = true := by
+            rw [hZ, ofSigned_natCast, Nat.mod_eq_of_lt (by
+              have : 2 ^ n = 2 ^ (n - 1) * 2 := by rw [← Nat.pow_succ]; congr 1; omega
+              omega)]
+            unfold ConvFixpnt.signP; exact Nat.testBit_two_pow_self
+          rw [if_pos ⟨hbr, rfl, hsg⟩]
+          have hle : FixpntSpec.maxposZ n ≤ rne (x * ((2 ^ r : Nat) : Rat)) := by
+            rw [hZ]; unfold FixpntSpec.maxposZ; omega
+          rw [Fixpnt.clamp_le_maxpos hle, ofSigned_maxposZ n hn]
+        · have hZnn : (0 : Int) ≤ rne (x * ((2 ^ r : Nat) : Rat)) := le_rne (by rw [hsc]; push_cast; exact hpow)
+          obtain ⟨m, hm⟩ : ∃ m : Nat, rne (x * ((2 ^ r : Nat) : Rat)) = (m : Int) := ⟨_, (Int.toNat_of_nonneg hZnn).symm⟩
+          have hmlt : m < 2 ^ (n - 1) := by
+            have h1 : (m : Int) ≤ ((2 ^ (n - 1) : Nat) : Int) := by rw [← hm]; exact hZhi
+            have h2 : (m : Int) ≠ ((2 ^ (n - 1) : Nat) : Int) := by rw [← hm]; exact hZ
+            have : m ≤ 2 ^ (n - 1) := by exact_mod_cast h1
+            have : m ≠ 2 ^ (n - 1) := by intro h; exact h2 (by rw [h])
+            omega
+          have hsg : ¬ ConvFixpnt.signP n (ofSigned n (rne (x * ((2 ^ r : Nat) : Rat)))) = true := by
+            rw [hm, ofSigned_natCast, Nat.mod_eq_of_lt (by
+              have : 2 ^ n = 2 ^ (n - 1) * 2 := by rw [← Nat.pow_succ]; congr 1; omega
+              omega)]
+            unfold ConvFixpnt.signP; rw [Nat.testBit_lt_two_pow hmlt]; simp
+          rw [if_neg (fun h => hsg h.2.2)]
+          have hin : rne (x * ((2 ^ r : Nat) : Rat)) ≤ FixpntSpec.maxposZ n := by
+            rw [hm]; unfold FixpntSpec.maxposZ
+            have : (m : Int) < ((2 ^ (n - 1) : Nat) : Int) := by exact_mod_cast hmlt
+            omega
+          rw [Fixpnt.clamp_inside' hZlo hin]
+      · -- a negative source: the result is not positive, only the lower clamp matters and it was tested
+        simp only [sgnQ, if_true] at hsc
+        rw [if_neg (fun h => Bool.noConfusion h.2.1)]
+        have hZle : rne (x * ((2 ^ r : Nat) : Rat)) ≤ 0 := rne_le (by rw [hsc]; push_cast; linarith)
+        have hin : rne (x * ((2 ^ r : Nat) : Rat)) ≤ FixpntSpec.maxposZ n := by
+          unfold FixpntSpec.maxposZ
+          have : (0 : Int) < ((2 ^ (n - 1) : Nat) : Int) := by exact_mod_cast hA1
+          omega
+        rw [Fixpnt.clamp_inside' hZlo hin]
+
+open F64 in
+/-- float / double → fixpnt, Saturate, normal finite source, EVERY nbits up to the single-precision range (nbits − rbits ≤ 128,
+    rbits ≤ 149: float(maxneg) does not overflow and the ulp 2^−rbits is a float): `float(maxpos)` is exact for nbits ≤ 25 and
+    the power of two 2^(nbits−1−rbits) above -/
+theorem fromIeee_saturate (n r ew fb bits : Nat) (hn : 0 < n) (hr : r ≤ n) (hr149 : r ≤ 149) (hnr : n - r ≤ 128) (hew : 2 ≤ ew)
+    (hfb : fb + 1 < 64) (hexp : 0 < (bits >>> fb) % 2 ^ ew) (hfin : (bits >>> fb) % 2 ^ ew < 2 ^ ew - 1) :
+    ConvFixpnt.fromIeee n r true ew fb bits = ConvFixpntSpec.fromRat n r true (SpecF64.valOf (fb + 1) ew bits) := by
+  have hq : binary32.q = 149 := by decide
+  have hp : binary32.p = 24 := by decide
+  have htop : binary32.top = 277 := by decide
+  have hmn := toNative_maxneg binary32 (by rw [hp]; omega) n r hn (by rw [hq]; omega) (by rw [hq, htop]; omega)
+  rw [hq] at hmn
+  have hA1 := Nat.two_pow_pos (n - 1)
+  by_cases hn25 : n ≤ 25
+  · have hmp := toNative_maxpos binary32 (by rw [hp]; omega) n r hn (by rw [hq]; omega) (by rw [hp]; omega) (by rw [hq, htop]; omega)
+    rw [hq] at hmp
+    exact fromIeee_saturate_of_thresholds n r ew fb bits _ hn hr149 hew hfb hexp hfin hmp (Nat.le_refl _)
+      (Nat.mul_le_mul_right _ (by omega)) hmn
+  · have hmp := toNative_maxpos_wide binary32 (by rw [hp]; omega) n r (by rw [hq]; omega) (by rw [hp]; omega) (by rw [hq, htop]; omega)
+    rw [hq] at hmp
+    exact fromIeee_saturate_of_thresholds n r ew fb bits _ hn hr149 hew hfb hexp hfin hmp
+      (Nat.mul_le_mul_right _ (by omega)) (Nat.le_refl _) hmn
 
 /-! ### zero and subnormal sources (Modulo) -/
 
@@ -730,8 +1006,8 @@ theorem valOf_subnormal_round (r ew fb bits : Nat) (he : (bits >>> fb) % 2 ^ ew 
   rw [hval, rne_sgn_div, rneShr_small hfr]
   cases bits.testBit (fb + ew) <;> simp [sgnZ]
 
-/-- every FINITE source (zero, subnormal, normal), Modulo, nbits ≤ 64, bias ≥ rbits + 2 -/
-theorem fromIeee_modulo_finite (n r ew fb bits : Nat) (hn : n ≤ 64) (hfb : fb + 1 < 64)
+/-- every FINITE source (zero, subnormal, normal), Modulo, EVERY nbits, bias ≥ rbits + 2 -/
+theorem fromIeee_modulo_finite (n r ew fb bits : Nat) (hfb : fb + 1 < 64)
     (hbias : r + 3 ≤ 2 ^ (ew - 1)) :
     ConvFixpnt.fromIeee n r false ew fb bits = ConvFixpntSpec.fromRat n r false (SpecF64.valOf (fb + 1) ew bits) := by
   by_cases he : (bits >>> fb) % 2 ^ ew = 0
@@ -740,40 +1016,96 @@ theorem fromIeee_modulo_finite (n r ew fb bits : Nat) (hn : n ≤ 64) (hfb : fb 
     simp only [Bool.false_eq_true, if_false]
     rw [valOf_subnormal_round r ew fb bits he hbias]
     simp [ofSigned]
-  · exact fromIeee_modulo n r ew fb bits hn hfb (by omega)
+  · exact fromIeee_modulo n r ew fb bits hfb (by omega)
 
-/-! ### unsigned sources, Saturate -/
+/-! ### unsigned sources: integer parts wider than 64 bits, Saturate -/
 
-/-- `static_cast<unsigned>(maxpos)`: the raw pattern 2^(nbits−1) − 1, when it fits the source type -/
-theorem uthresh_maxpos (n sz : Nat) (hn : 0 < n) (hn64 : n ≤ 64) (hfit : n - 1 ≤ sz) :
-    ConvFixpnt.toUnsignedPat n sz (ConvFixpnt.maxposP n) = 2 ^ (n - 1) - 1 := by
-  unfold ConvFixpnt.toUnsignedPat ConvFixpnt.toLongLong ConvFixpnt.maxposP
-  have hA := Nat.two_pow_pos (n - 1)
-  have h1 : 2 ^ (n - 1) ≤ 2 ^ sz := Nat.pow_le_pow_right (by omega) hfit
-  have h2 : 2 ^ (n - 1) ≤ 2 ^ 64 := Nat.pow_le_pow_right (by omega) (by omega)
-  split
-  · rw [Integer.toSigned_small hn (by omega), ofSigned_natCast, Nat.mod_eq_of_lt (by omega), Nat.mod_eq_of_lt (by omega)]
-  · rw [Nat.mod_eq_of_lt (by omega), Nat.mod_eq_of_lt (by omega)]
-
-/-- Saturate, unsigned source at or above the raw maxpos pattern: maxpos, as the property demands -/
-theorem fromUnsigned_saturate_top (n r sz v : Nat) (hn : 0 < n) (hn64 : n ≤ 64) (hfit : n - 1 ≤ sz)
-    (hv : 2 ^ (n - 1) - 1 ≤ v) :
-    ConvFixpnt.fromUnsigned n r true sz v = ConvFixpntSpec.fromInt n r true (v : Int) := by
+/-- unsigned source (a native type: v < 2^64), Modulo, integer part wider than 64 bits: all 64 source bits are copied -/
+theorem fromUnsigned_modulo_wide (n r sz v : Nat) (hr : r ≤ n) (h64 : ¬ n - r ≤ 64) (hv : v < 2 ^ 64) :
+    ConvFixpnt.fromUnsigned n r false sz v = ConvFixpntSpec.fromInt n r false (v : Int) := by
   unfold ConvFixpnt.fromUnsigned ConvFixpntSpec.fromInt FixpntSpec.finish
-  simp only [Bool.true_and, decide_eq_true_eq, if_true]
+  simp only [Bool.false_and, Bool.false_eq_true, if_false]
+  by_cases hv0 : v = 0
+  · subst hv0; simp [ofSigned]
+  · rw [if_neg hv0, if_neg h64, show r + 64 - r = 64 by omega, Nat.mod_eq_of_lt hv, Nat.shiftLeft_eq]
+    have e : (v : Int) * ((2 ^ r : Nat) : Int) = ((v * 2 ^ r : Nat) : Int) := by push_cast; ring
+    have hlt : v * 2 ^ r < 2 ^ n := by
+      have h1 : v * 2 ^ r < 2 ^ 64 * 2 ^ r := Nat.mul_lt_mul_of_pos_right hv (Nat.two_pow_pos r)
+      have h2 : 2 ^ 64 * 2 ^ r ≤ 2 ^ n := by rw [← Nat.pow_add]; exact Nat.pow_le_pow_right (by omega) (by omega)
+      omega
+    rw [e, ofSigned_natCast, Nat.mod_eq_of_lt hlt]
+
+/-- unsigned source held in a native type (v < 2^64), Modulo: EVERY configuration -/
+theorem fromUnsigned_modulo_full (n r sz v : Nat) (hr : r ≤ n) (hv : v < 2 ^ 64) :
+    ConvFixpnt.fromUnsigned n r false sz v = ConvFixpntSpec.fromInt n r false (v : Int) := by
+  by_cases h64 : n - r ≤ 64
+  · exact fromUnsigned_modulo n r sz v hr h64
+  · exact fromUnsigned_modulo_wide n r sz v hr h64 hv
+
+/-- Saturate, unsigned source held in a native type (v < 2^64): the clamp of `v · 2^rbits` for EVERY configuration and value.
+    The range test `v > (unsigned long long)(long long)(maxpos)` is compiled when nbits − rbits ≤ 64; a wider integer part
+    holds every 64-bit value. -/
+theorem fromUnsigned_saturate (n r sz v : Nat) (hn : 0 < n) (hr : r ≤ n) (hv : v < 2 ^ 64) :
+    ConvFixpnt.fromUnsigned n r true sz v = ConvFixpntSpec.fromInt n r true (v : Int) := by
+  have hmod := fromUnsigned_modulo_full n r sz v hr hv
+  unfold ConvFixpnt.fromUnsigned ConvFixpntSpec.fromInt FixpntSpec.finish at hmod ⊢
+  simp only [Bool.false_and, Bool.false_eq_true, if_false] at hmod
+  simp only [Bool.true_and, Bool.and_eq_true, decide_eq_true_eq, if_true]
   have hP1 : (0 : Int) < ((2 ^ (n - 1) : Nat) : Int) := by exact_mod_cast Nat.two_pow_pos (n - 1)
+  have hR : (0 : Int) < ((2 ^ r : Nat) : Int) := by exact_mod_cast Nat.two_pow_pos r
+  have hv0' : (0 : Int) ≤ (v : Int) := by omega
+  have hnonneg : FixpntSpec.maxnegZ n ≤ (v : Int) * ((2 ^ r : Nat) : Int) := by
+    have := Int.mul_nonneg hv0' (Int.le_of_lt hR)
+    unfold FixpntSpec.maxnegZ; omega
   by_cases hv0 : v = 0
   · subst hv0
     rw [if_pos rfl, Nat.cast_zero, Int.zero_mul,
       Fixpnt.clamp_inside' (by unfold FixpntSpec.maxnegZ; omega) (by unfold FixpntSpec.maxposZ; omega)]
     simp [ofSigned]
-  · rw [if_neg hv0, uthresh_maxpos n sz hn hn64 hfit, if_pos (by omega)]
-    have hR : (1 : Int) ≤ ((2 ^ r : Nat) : Int) := by exact_mod_cast Nat.two_pow_pos r
-    have hle : FixpntSpec.maxposZ n ≤ (v : Int) * ((2 ^ r : Nat) : Int) := by
+  rw [if_neg hv0] at hmod ⊢
+  by_cases h64 : n - r ≤ 64
+  · rcases Nat.lt_or_ge r n with hlt | hge
+    · rw [pat_maxpos n r 64 hlt h64 h64]
+      have hK := Nat.two_pow_pos (n - r - 1)
+      have emp := maxposZ_eq n r hlt
+      by_cases hA : v > 2 ^ (n - r - 1) - 1
+      · rw [if_pos ⟨h64, hA⟩]
+        have hle : FixpntSpec.maxposZ n ≤ (v : Int) * ((2 ^ r : Nat) : Int) := by
+          rw [emp]
+          have hvk : ((2 ^ (n - r - 1) : Nat) : Int) ≤ (v : Int) := by exact_mod_cast (show 2 ^ (n - r - 1) ≤ v by omega)
+          have := Int.mul_le_mul_of_nonneg_right hvk (Int.le_of_lt hR)
+          omega
+        rw [Fixpnt.clamp_le_maxpos hle, ofSigned_maxposZ n hn]
+      · rw [if_neg (fun h => hA h.2)]
+        have hvk : (v : Int) ≤ ((2 ^ (n - r - 1) : Nat) : Int) - 1 := by
+          have : v + 1 ≤ 2 ^ (n - r - 1) := by omega
+          have : ((v + 1 : Nat) : Int) ≤ ((2 ^ (n - r - 1) : Nat) : Int) := by exact_mod_cast this
+          push_cast at this; omega
+        have hup := Int.mul_le_mul_of_nonneg_right hvk (Int.le_of_lt hR)
+        have hin : (v : Int) * ((2 ^ r : Nat) : Int) ≤ FixpntSpec.maxposZ n := by
+          rw [emp]; rw [Int.sub_mul, Int.one_mul] at hup; omega
+        rw [Fixpnt.clamp_inside' hnonneg hin]
+        exact hmod
+    · have hrn : r = n := by omega
+      subst hrn
+      have hz : ConvFixpnt.toSignedPat r r 64 (ConvFixpnt.maxposP r) = 0 := by
+        unfold ConvFixpnt.toSignedPat; rw [if_pos (Nat.le_refl r)]
+      rw [hz, if_pos ⟨h64, by omega⟩]
+      have hle : FixpntSpec.maxposZ r ≤ (v : Int) * ((2 ^ r : Nat) : Int) := by
+        unfold FixpntSpec.maxposZ
+        have hz2 : 2 ^ r = 2 ^ (r - 1) * 2 := by rw [← Nat.pow_succ]; congr 1; omega
+        have hzi : ((2 ^ r : Nat) : Int) = ((2 ^ (r - 1) : Nat) : Int) * 2 := by rw [hz2]; push_cast; ring
+        have := Int.mul_le_mul_of_nonneg_right (show (1 : Int) ≤ (v : Int) by omega) (Int.le_of_lt hR)
+        omega
+      rw [Fixpnt.clamp_le_maxpos hle, ofSigned_maxposZ r hn]
+  · rw [if_neg (fun h => h64 h.1)]
+    have hin : (v : Int) * ((2 ^ r : Nat) : Int) ≤ FixpntSpec.maxposZ n := by
       unfold FixpntSpec.maxposZ
-      have h1 : ((2 ^ (n - 1) : Nat) : Int) - 1 ≤ (v : Int) := by omega
-      have h2 : (v : Int) * 1 ≤ (v : Int) * ((2 ^ r : Nat) : Int) := Int.mul_le_mul_of_nonneg_left hR (by omega)
-      omega
-    rw [Fixpnt.clamp_le_maxpos hle, ofSigned_maxposZ n hn]
+      have h1 : v * 2 ^ r < 2 ^ 64 * 2 ^ r := Nat.mul_lt_mul_of_pos_right hv (Nat.two_pow_pos r)
+      have h2 : 2 ^ 64 * 2 ^ r ≤ 2 ^ (n - 1) := by rw [← Nat.pow_add]; exact Nat.pow_le_pow_right (by omega) (by omega)
+      have h3 : ((v * 2 ^ r : Nat) : Int) < ((2 ^ (n - 1) : Nat) : Int) := by exact_mod_cast (show v * 2 ^ r < 2 ^ (n - 1) by omega)
+      push_cast at h3 ⊢; omega
+    rw [Fixpnt.clamp_inside' hnonneg hin]
+    exact hmod
 
 end UVerif.ConvFixpntLemmas
